@@ -7,7 +7,7 @@ props = [json.loads(l) for l in open(os.path.join(V, "properties.jsonl"))]
 CLAIMS = {
  "C11": dict(
   technique="Lean 4 proofs about the panic and hang exits of the allocation model on arbitrary tables (extend_chain's unbounded walk terminates after the successful chain walk that precedes it; the reuse branch of allocate_sector and the pop loop of allocate_mini_sector have no panic exit while the free lists are inside their tables; free_mini_sector re-establishes that range) + campaign on the implementation: corruptions that survive permissive open x short mutating histories, panic hook with source location, per-case watchdog",
-  text="Proof: CfbVerif.Props.C11 — C11_walk_then_extend_terminates (walk_then_last), C11_setFat_no_panic, C11_initSector_no_panic, C11_reuse_no_panic, C11_free_mini_range, C11_popFreeMini_no_panic. "
+  text="Proof: CfbVerif.Props.C11 — C11_walk_then_extend_terminates (walk_then_last), C11_setFat_no_panic, C11_initSector_no_panic, C11_reuse_no_panic, C11_free_mini_range, C11_popFreeMini_no_panic; and by induction over all API histories from a fresh file both range conditions hold in every reachable state (miniRange_reachable, inv_reachable): C11_mini_pop_safe_reachable, C11_reuse_safe_reachable. "
        "Tie: every unchecked index of alloc.rs/minialloc.rs/chain.rs/minichain.rs is a `panic` exit and every unbounded loop a fuelled `hang` exit of Phys, whose write path equals the library byte for byte on valid files; on damaged files thousands of accepted corrupted images (library-made and foreign-layout bases; field-level and targeted corruptions) are mutated through the API under a panic hook and a 15 s watchdog, each finding kept as image + history.",
   note="Partial by nature: the set of damaged states reachable after permissive open is not characterised, so panic-freedom of every call on every accepted file is decided by search, not proved; the model is not run on damaged tables. Handles on removed/overwritten streams are excluded (C07). Trusted: Lean kernel, standard axioms, harness and its corruption generator.",
   design="§3 C11"),
